@@ -386,6 +386,9 @@ def _features_for(op, model_before):
         key = op["key"]
         f["nlists"] = sum(1 for e in key if isinstance(e, dict) and ("l" in e or "a" in e))
         f["nints"] = sum(1 for e in key if not isinstance(e, dict))
+        # number of "advanced" index positions in NumPy's sense (lists and integers): with a list present and two or more of them NumPy
+        # zips them instead of taking the outer product (mechanism of known finding C04-K1)
+        f["nadv"] = f["nlists"] + f["nints"]
         f["has_neg"] = any((not isinstance(e, dict) and e < 0) or (isinstance(e, dict) and "s" in e and any(x is not None and x < 0 for x in e["s"])) for e in key)
         f["order_growth"] = len(key) > len(model_before.shape)
         if k == "set_region":
@@ -429,7 +432,7 @@ def _exec_history(case, ctx):
     ctx.feat(start=start, forced=case.get("forced"))
     for step, op in enumerate(case["ops"]):
         before = ctx.nviol
-        ctx.feat(step=min(step, 3), **{k: None for k in ("nlists", "nints", "has_neg", "order_growth", "rhs", "mix", "scalar_rhs", "first_zero", "grows", "zero_value", "form")})
+        ctx.feat(step=min(step, 3), **{k: None for k in ("nlists", "nints", "nadv", "has_neg", "order_growth", "rhs", "mix", "scalar_rhs", "first_zero", "grows", "zero_value", "form")})
         ctx.feat(**_features_for(op, model))
         _exec_op(ctx, op, T, S, model)
         if ctx.nviol > before:
